@@ -1076,6 +1076,12 @@ struct Extractor {
     json::Object O;
     O["name"] = RD->getNameAsString();
     O["qname"] = qname(RD);
+    if (RD->getNameAsString().empty()) {
+      if (const TypedefNameDecl *TD = RD->getTypedefNameForAnonDecl()) {
+        O["name"] = TD->getNameAsString();
+        O["qname"] = TD->getQualifiedNameAsString();
+      }
+    }
     O["loc"] = locStr(RD->getLocation());
     O["kind"] = RD->getKindName().str();
     const ASTRecordLayout *L = nullptr;
